@@ -13,7 +13,13 @@ package obialign
 //     deletions placed to push the optimal path towards the band edges) x every bound;
 //   * buffer histories: every ordered pair of calls of a fixed call set on one shared buffer;
 //   * D1Or0 on every ordered pair up to a small length, and on every single / double edit of a
-//     40-base sequence.
+//     40-base sequence;
+//   * the exported byte-slice entry point FastLCSEGFScoreByte on raw input: every ordered pair
+//     over {a,c,g,r} in lower and upper case (nil slice for the empty sequence);
+//   * very unequal lengths (0..2 bases against 6..41) x every bound up to the length + 2;
+//   * lengths around the capacities of the packed 16-bit score / path-length fields and of the
+//     30000 "not available" sentinel (2^8, 2^15, 2^16, 30000 +- 3) with answers proved by
+//     elementary arguments.
 // Oracle: boring quadratic dynamic programming written here (lexicographic: most
 // IUPAC-compatible matches, then shortest alignment) and Levenshtein distance.
 
@@ -37,10 +43,14 @@ type c09call struct {
 	B     string `json:"b"`
 	Bound int    `json:"bound"`
 	EGF   bool   `json:"egf"`
+	// Raw: A and B are passed as they are (upper case kept, "" as a nil slice) to the byte-slice
+	// entry point FastLCSEGFScoreByte instead of going through obiseq.BioSequence
+	Raw bool `json:"raw,omitempty"`
 }
 
 type c09case struct {
-	Kind string `json:"kind"` // "lcs" | "d1"
+	Kind string `json:"kind"` // "lcs" | "d1" | "xl" (extreme-length family of XL bases, regenerated on replay)
+	XL   int    `json:"xl,omitempty"`
 	c09call
 	// Buf: "nil" (no buffer), "hist" (fresh empty buffer on which Hist is executed first),
 	// "poison" (buffer pre-filled with all-ones words). Replaying a case runs every buffer mode.
@@ -407,7 +417,7 @@ func (h *c09h) violate(site, class string, c c09case, msg string) {
 		return
 	}
 	desc := fmt.Sprintf("%s(%q, %q", site, c.A, c.B)
-	if c.Kind == "lcs" {
+	if c.Kind == "lcs" || c.Kind == "xl" {
 		desc += fmt.Sprintf(", maxError=%d, buffer=%s", c.Bound, c.Buf)
 	}
 	desc += "): " + msg
@@ -505,14 +515,29 @@ func (h *c09h) lcsPair(a, b string, sa, sb *obiseq.BioSequence, bound int, egf b
 	}
 	y := h.lcsOrdered(b, a, sb, sa, bound, egf, ref.swap())
 	if x != y {
-		class := "asymmetric"
-		if egf && len(a) == len(b) && x.panicked == "" && y.panicked == "" && x.lcs == y.lcs {
-			// equal lengths: the kernel frees the overhang of its first argument only
-			class = "asymmetric:equal-length-alignment-length"
-		}
-		h.violate(c09site(egf), class, c09case{Kind: "lcs", c09call: c09call{A: a, B: b, Bound: bound, EGF: egf}, Buf: "nil"},
+		h.violate(c09site(egf), c09asymClass(bound, egf, len(a) == len(b), ref, x, y), c09case{Kind: "lcs", c09call: c09call{A: a, B: b, Bound: bound, EGF: egf}, Buf: "nil"},
 			fmt.Sprintf("f(a,b)=%v but f(b,a)=%v", x, y))
 	}
+}
+
+// c09asymClass names an asymmetry f(a,b)=x, f(b,a)=y (ref is the reference seen from (a,b)).
+// One asymmetry is a listed finding: in end-gap-free mode with sequences of EQUAL length the kernel
+// frees the overhang of its FIRST argument only. It gets its own class only when the two answers
+// are what that behaviour predicts: x is right when a's overhang is free (ref.egfFirst) and y is
+// right when b's overhang is free (ref.egfSecond) - within the bound that pins both answers, which
+// then differ because the two readings differ; beyond the bound each call may return any pair that
+// is itself beyond the bound, and the band explored under the two readings is not the same one.
+// Any other pair of different answers (different LCS within the bound, found on one side only,
+// lengths that follow no reading or the reading of the other argument ...) is a plain "asymmetric".
+func c09asymClass(bound int, egf, sameLen bool, ref c09ref, x, y c09res) string {
+	if egf && sameLen && x.panicked == "" && y.panicked == "" {
+		cx, _ := c09judge1(bound, ref.lcs, ref.egfFirst, x)
+		cy, _ := c09judge1(bound, ref.lcs, ref.egfSecond, y)
+		if cx == "" && cy == "" {
+			return "asymmetric:equal-length-alignment-length"
+		}
+	}
+	return "asymmetric"
 }
 
 func (h *c09h) d1Point(a, b string, sa, sb *obiseq.BioSequence) {
@@ -941,6 +966,108 @@ func TestVerifC09(t *testing.T) {
 		}
 	}
 
+	if r.Expired() {
+		return
+	}
+
+	// ---- phase 7: the exported byte-slice entry point FastLCSEGFScoreByte on raw input (the two
+	// wrappers only ever pass the lower-cased bytes of a BioSequence): every ordered pair of
+	// strings over {a,c,g,r} x {lower,upper case} up to a small length, nil slices for the empty
+	// sequence, both values of the endgapfree flag
+	rawLen := 3
+	if thorough {
+		rawLen = 4
+	}
+	r.Bound("raw_bytes", fmt.Sprintf("FastLCSEGFScoreByte: all ordered pairs over acgrACGR up to length %d x bounds -1..3 x endgapfree x {nil, reused buffer}", rawLen))
+	{
+		rs := verifkit.AllStrings("acgrACGR", 0, rawLen)
+		low := make([]string, len(rs))
+		for i, x := range rs {
+			low[i] = strings.ToLower(x)
+		}
+		for ia, a := range rs {
+			if r.Mine(k) {
+				for ib := ia; ib < len(rs); ib++ {
+					b := rs[ib]
+					ref := h.reference(low[ia], low[ib])
+					r.State("raw:" + a + "|" + b)
+					r.State("raw:" + b + "|" + a)
+					for bound := -1; bound <= 3; bound++ {
+						h.rawPair(a, b, bound, false, ref)
+						h.rawPair(a, b, bound, true, ref)
+					}
+					if a != low[ia] || b != low[ib] {
+						r.Count("raw_pairs_with_upper_case", 1)
+					}
+				}
+				if r.Expired() {
+					return
+				}
+			}
+			k++
+		}
+	}
+
+	// ---- phase 8: very unequal lengths x every bound (the band is as wide as the length
+	// difference): every string up to length 2 (3) against sequences of 6..13, 20, 21, 40, 41 bases
+	{
+		shortLen := 2
+		if thorough {
+			shortLen = 3
+		}
+		shorts := verifkit.AllStrings("acgt", 0, shortLen)
+		r.Bound("unequal_lengths", fmt.Sprintf("every string up to length %d x sequences of 6..13,20,21,40,41 bases x bounds -1..length+2", shortLen))
+		for _, L := range []int{6, 7, 8, 9, 10, 11, 12, 13, 20, 21, 40, 41} {
+			if r.Mine(k) {
+				// two long sequences: a deterministic mixed one and a low-complexity one
+				for _, a := range []string{c09base(L), strings.Repeat("ac", L)[:L]} {
+					sa := obiseq.NewBioSequence("a", []byte(a), "")
+					for _, b := range shorts {
+						sb := c09seq(b)
+						ref := h.reference(a, b)
+						r.State(a + "|" + b)
+						r.State(b + "|" + a)
+						for bound := -1; bound <= L+2; bound++ {
+							h.lcsPair(a, b, sa, sb, bound, false, ref)
+							h.lcsPair(a, b, sa, sb, bound, true, ref)
+						}
+						r.Count("unequal_pairs", 1)
+					}
+				}
+				if r.Expired() {
+					return
+				}
+			}
+			k++
+		}
+	}
+
+	// ---- phase 9: lengths around the capacities of the packed score / path-length word
+	// (2^8, 2^15, 2^16 and the 30000 used for "not available" cells): near-identical pairs with
+	// small bounds, and a very long sequence against 0..2 bases with bounds around the length
+	// difference. Expected answers are proved by elementary arguments (c09nearExact), no quadratic
+	// table is filled for the long ones.
+	{
+		xl := []int{254, 255, 256, 257, 29999, 30000, 30001, 30002, 30003, 32766, 32767, 32768, 32769, 65533, 65534, 65535, 65536, 65537, 65538}
+		if thorough {
+			xl = append(xl, 1023, 1024, 1025, 4095, 4096, 4097, 16383, 16384, 16385, 70000, 100000, 131071, 131072, 131073)
+		}
+		r.Bound("extreme_lengths", fmt.Sprint(xl))
+		for _, L := range xl {
+			if r.Mine(k) {
+				h.extremeLength(L)
+				if r.Expired() {
+					return
+				}
+			}
+			k++
+		}
+	}
+
+	r.RequireNonVacuous("raw_pairs_with_upper_case")
+	r.RequireNonVacuous("unequal_pairs")
+	r.RequireNonVacuous("xl_within_bound")
+	r.RequireNonVacuous("xl_beyond_bound")
 	r.RequireNonVacuous("within_bound")
 	r.RequireNonVacuous("exactly_at_bound")
 	r.RequireNonVacuous("beyond_bound")
@@ -972,6 +1099,15 @@ func c09historyCalls() []c09call {
 }
 
 func c09replay(h *c09h, c c09case) {
+	if c.Kind == "xl" {
+		h.extremeLength(c.XL)
+		return
+	}
+	if c.Raw {
+		ref := h.reference(strings.ToLower(c.A), strings.ToLower(c.B))
+		h.rawPair(c.A, c.B, c.Bound, c.EGF, ref)
+		return
+	}
 	sa, sb := c09seq(c.A), c09seq(c.B)
 	switch c.Kind {
 	case "d1":
@@ -991,5 +1127,325 @@ func c09replay(h *c09h, c c09case) {
 			}
 		}
 		h.lcsPair(c.A, c.B, sa, sb, c.Bound, c.EGF, ref)
+	}
+}
+
+// ---------------------------------------------------------------- raw byte-slice entry point
+
+func c09bytes(x string) []byte {
+	if x == "" {
+		return nil // the empty sequence as a nil slice
+	}
+	return []byte(x)
+}
+
+func c09runByte(a, b string, bound int, egf bool, buf *[]uint64) (res c09res) {
+	defer func() {
+		if r := recover(); r != nil {
+			res = c09res{panicked: fmt.Sprint(r)}
+		}
+	}()
+	s, l, _ := FastLCSEGFScoreByte(c09bytes(a), c09bytes(b), bound, egf, buf)
+	return c09res{lcs: s, alen: l}
+}
+
+// rawOrdered: one call of FastLCSEGFScoreByte on raw bytes. Upper and lower case letters denote
+// the same IUPAC symbols: the answer on the lower-cased input is judged against the reference as
+// everywhere else (ordinary keys of the wrappers: same code), and the answer on the raw input must
+// be that very answer (one key for whatever a case-dependent comparison breaks).
+func (h *c09h) rawOrdered(a, b string, bound int, egf bool, ref c09ref) c09res {
+	r := h.r
+	la, lb := strings.ToLower(a), strings.ToLower(b)
+	call := c09call{A: la, B: lb, Bound: bound, EGF: egf}
+	cs := c09case{Kind: "lcs", c09call: c09call{A: a, B: b, Bound: bound, EGF: egf, Raw: true}, Buf: "nil"}
+	got := c09runByte(a, b, bound, egf, nil)
+	r.Eval(1)
+	r.Trans(1)
+	r.Count("raw_byte_calls", 1)
+	lowGot := got
+	if la != a || lb != b {
+		lowGot = c09runByte(la, lb, bound, egf, nil)
+		r.Eval(1)
+		r.Trans(1)
+		if got != lowGot {
+			h.violate("FastLCSEGFScoreByte", "upper-case-input-differs", cs, fmt.Sprintf("got %v, the lower-cased input gives %v", got, lowGot))
+		}
+	}
+	if cl, msg := c09judgeLCS(call, ref, lowGot); cl != "" {
+		h.violate(c09site(egf), cl, c09case{Kind: "lcs", c09call: c09call{A: la, B: lb, Bound: bound, EGF: egf, Raw: true}, Buf: "nil"}, msg)
+	}
+	got2 := c09runByte(a, b, bound, egf, &h.shared)
+	r.Eval(1)
+	r.Trans(1)
+	if got2 != got {
+		cs.Note = "long-lived reused buffer"
+		h.violate("FastLCSEGFScoreByte", "buffer-dependent", cs, fmt.Sprintf("reused buffer %v, nil buffer %v", got2, got))
+	}
+	return lowGot
+}
+
+// rawPair: both argument orders; the symmetry is judged on the answers of the lower-cased input
+// (a case-dependent answer was reported by rawOrdered already).
+func (h *c09h) rawPair(a, b string, bound int, egf bool, ref c09ref) {
+	x := h.rawOrdered(a, b, bound, egf, ref)
+	if a == b {
+		return
+	}
+	y := h.rawOrdered(b, a, bound, egf, ref.swap())
+	if x != y {
+		la, lb := strings.ToLower(a), strings.ToLower(b)
+		h.violate(c09site(egf), c09asymClass(bound, egf, len(a) == len(b), ref, x, y),
+			c09case{Kind: "lcs", c09call: c09call{A: la, B: lb, Bound: bound, EGF: egf, Raw: true}, Buf: "nil"},
+			fmt.Sprintf("f(a,b)=%v but f(b,a)=%v", x, y))
+	}
+}
+
+// ---------------------------------------------------------------- extreme lengths
+
+func c09isSubseq(short, long string) bool {
+	i := 0
+	for j := 0; j < len(long) && i < len(short); j++ {
+		if short[i] == long[j] {
+			i++
+		}
+	}
+	return i == len(short)
+}
+
+// c09nearExact proves the exact (LCS, shortest alignment length) of two sequences over {a,c,g,t}
+// (plain equality, no ambiguity code) from a common subsequence of length mc known by
+// construction. With n = len(short), m the LCS and `mis` the mismatch columns of an alignment:
+// alignment length = len(a)+len(b)-m-mis and mis <= n-m.
+//   - short is a subsequence of long          => m = n, mis = 0: (n, len(long))
+//   - otherwise m <= n-1; the construction gives m >= mc, so mc must be n-1 (else: not provable,
+//     harness error). Then mis <= 1 and the length is len(long) when an alignment with n-1 matches,
+//     one mismatch and gaps in `short` only exists, else len(long)+1. For len(long)-len(short) = 0
+//     that is "Hamming distance 1"; for 1 it is "some single deletion of long is at Hamming
+//     distance 1 of short" (prefix / suffix mismatch counts).
+func c09nearExact(a, b string, mc int) (int, int) {
+	long, short := a, b
+	if len(long) < len(short) {
+		long, short = short, long
+	}
+	n, d := len(short), len(long)-len(short)
+	if c09isSubseq(short, long) {
+		return n, len(long)
+	}
+	if mc != n-1 {
+		panic(fmt.Sprintf("harness: extreme-length family member not provable (mc=%d, n=%d)", mc, n))
+	}
+	switch d {
+	case 0:
+		hd := 0
+		for i := 0; i < n; i++ {
+			if long[i] != short[i] {
+				hd++
+			}
+		}
+		if hd == 1 {
+			return n - 1, n
+		}
+		return n - 1, n + 1
+	case 1:
+		// suf[p] = mismatches of long[i+1] vs short[i] for i >= p
+		suf := make([]int32, n+1)
+		for i := n - 1; i >= 0; i-- {
+			suf[i] = suf[i+1]
+			if long[i+1] != short[i] {
+				suf[i]++
+			}
+		}
+		pre := int32(0) // mismatches of long[i] vs short[i] for i < p
+		for p := 0; p <= n; p++ {
+			if pre+suf[p] == 1 {
+				return n - 1, n + 1
+			}
+			if p < n && long[p] != short[p] {
+				pre++
+			}
+		}
+		return n - 1, n + 2
+	}
+	panic("harness: extreme-length family member with a length difference above 1 must be a subsequence")
+}
+
+type c09xl struct {
+	L         int
+	a, b      string
+	lcs, glen int
+	what      string
+}
+
+func c09extremeFamily(L int) []c09xl {
+	base := c09base(L)
+	var out []c09xl
+	add := func(a, b string, mc int, what string) {
+		m, l := c09nearExact(a, b, mc)
+		out = append(out, c09xl{L, a, b, m, l, fmt.Sprintf("L=%d %s", L, what)})
+	}
+	add(base, base, L, "identical")
+	for _, p := range []int{0, L / 2, L - 1} {
+		add(base, c09delete(base, []int{p}), L-1, fmt.Sprintf("one deletion at %d", p))
+		add(base, c09subst(base, []int{p}), L-1, fmt.Sprintf("one substitution at %d", p))
+	}
+	add(base, c09delete(base, []int{1, L - 2}), L-2, "two deletions in one sequence")
+	add(base, c09delete(base, []int{1, L / 2, L - 2}), L-3, "three deletions in one sequence")
+	add(base, c09delete(c09subst(base, []int{L / 3}), []int{2 * L / 3}), L-2, "one substitution and one deletion")
+	add(c09delete(base, []int{L / 4}), c09delete(base, []int{3 * L / 4}), L-2, "one deletion in each sequence")
+	// one ambiguity code: 'n' is compatible with every base, every column matches
+	nb := []byte(base)
+	nb[L/2], nb[L-1] = 'n', 'n'
+	out = append(out, c09xl{L, base, string(nb), L, L, fmt.Sprintf("L=%d two positions replaced by n", L)})
+	return out
+}
+
+func c09xlSuffix(a, b string) string {
+	la, lb := len(a), len(b)
+	if la < lb {
+		la, lb = lb, la
+	}
+	switch {
+	case la > 65500:
+		// the 16-bit fields hold scores up to 65535 and path lengths up to 65534; the kernel also
+		// scores in-band paths a few columns longer than the optimal one
+		return ":length>65500"
+	case la-lb > 30000:
+		return ":length-difference>30000"
+	}
+	return ":long"
+}
+
+// xlOrdered: one call configuration on an extreme-length pair with a known exact answer
+// (lcs, glen). Global mode: the full statement. End-gap-free mode: the alignment length depends on
+// the reading of the mode and lies between the LCS and glen under every reading, so within the
+// (global) bound the LCS is demanded exactly and the length must be in [lcs, glen]; beyond it only
+// malformed answers are reported.
+func (h *c09h) xlOrdered(p c09xl, a, b string, sa, sb *obiseq.BioSequence, bound int, egf bool, bufs [2]*[]uint64) c09res {
+	r := h.r
+	call := c09call{A: a, B: b, Bound: bound, EGF: egf}
+	cs := c09case{Kind: "xl", XL: p.L, c09call: c09call{Bound: bound, EGF: egf}, Note: p.what}
+	if len(a)+len(b) <= 600 {
+		cs = c09case{Kind: "lcs", c09call: call, Buf: "nil", Note: p.what}
+	}
+	suffix := c09xlSuffix(a, b)
+	report := func(class, msg string) {
+		key := class
+		if suffix != ":long" && class != "panic" && !strings.HasPrefix(class, "buffer-dependent") {
+			key = "inexact" // one capacity limit shows as several failure classes
+		}
+		// h.violate builds the description from c.A / c.B: keep it readable
+		c := cs
+		if c.Kind == "xl" {
+			c.A, c.B = fmt.Sprintf("<%d bases>", len(a)), fmt.Sprintf("<%d bases>", len(b))
+		}
+		h.violate(c09site(egf), key+suffix, c, msg)
+	}
+	got := c09runLCS(sa, sb, bound, egf, nil)
+	r.Eval(1)
+	r.Trans(1)
+	diff := p.glen - p.lcs
+	within := bound < 0 || diff <= bound
+	if within {
+		r.Count("xl_within_bound", 1)
+	} else {
+		r.Count("xl_beyond_bound", 1)
+	}
+	switch {
+	case got.panicked != "":
+		report("panic", "panics: "+got.panicked)
+	case !egf:
+		if cl, msg := c09judge1(bound, p.lcs, p.glen, got); cl != "" {
+			report(cl, msg)
+		}
+	case within:
+		if got.lcs != p.lcs || got.alen < p.lcs || got.alen > p.glen {
+			report("wrong-lcs", fmt.Sprintf("got %v, exact LCS length is %d and the end-gap-free alignment length lies in [%d,%d]", got, p.lcs, p.lcs, p.glen))
+		}
+	default:
+		if !(got.lcs == -1 && got.alen == -1) && (got.lcs < 0 || got.alen < got.lcs) {
+			report("malformed", fmt.Sprintf("got %v: neither not-found nor a pair", got))
+		}
+	}
+	// reused buffer (shared by every call of this length) and all-ones pre-filled buffer
+	if g := c09runLCS(sa, sb, bound, egf, bufs[0]); g != got {
+		report("buffer-dependent", fmt.Sprintf("reused buffer %v, nil buffer %v", g, got))
+	}
+	po := bufs[1]
+	for try := 0; try < 2; try++ {
+		*po = (*po)[:cap(*po)]
+		for i := range *po {
+			(*po)[i] = ^uint64(0)
+		}
+		c0 := cap(*po)
+		g := c09runLCS(sa, sb, bound, egf, po)
+		if cap(*po) == c0 {
+			if g != got {
+				report("buffer-dependent:arbitrary-content", fmt.Sprintf("buffer pre-filled with all-ones words: %v, nil buffer %v", g, got))
+			}
+			break
+		}
+	}
+	r.Eval(2)
+	r.Trans(2)
+	return got
+}
+
+func (h *c09h) xlPair(p c09xl, sa, sb *obiseq.BioSequence, bound int, egf bool, bufs [2]*[]uint64) {
+	x := h.xlOrdered(p, p.a, p.b, sa, sb, bound, egf, bufs)
+	if p.a == p.b {
+		return
+	}
+	y := h.xlOrdered(p, p.b, p.a, sb, sa, bound, egf, bufs)
+	if x != y && !(egf && len(p.a) == len(p.b) && x.lcs == y.lcs) {
+		// (end-gap-free, equal lengths: the length asymmetry is judged on the short pairs, where
+		// the reference of every reading is computed)
+		c := c09case{Kind: "xl", XL: p.L, c09call: c09call{A: fmt.Sprintf("<%d bases>", len(p.a)), B: fmt.Sprintf("<%d bases>", len(p.b)), Bound: bound, EGF: egf}, Note: p.what}
+		class := "asymmetric"
+		if sfx := c09xlSuffix(p.a, p.b); sfx != ":long" {
+			class = "inexact"
+		}
+		h.violate(c09site(egf), class+c09xlSuffix(p.a, p.b), c, fmt.Sprintf("f(a,b)=%v but f(b,a)=%v", x, y))
+	}
+}
+
+func (h *c09h) extremeLength(L int) {
+	r := h.r
+	var shared, poison []uint64
+	bufs := [2]*[]uint64{&shared, &poison}
+	fam := c09extremeFamily(L)
+	if L <= 2100 {
+		// the elementary proofs against the quadratic table, where the table is affordable
+		for _, p := range fam {
+			ref := h.reference(p.a, p.b)
+			if ref.lcs != p.lcs || ref.glen != p.glen {
+				panic(fmt.Sprintf("harness: c09nearExact disagrees with the quadratic reference on %s: (%d,%d) vs (%d,%d)", p.what, p.lcs, p.glen, ref.lcs, ref.glen))
+			}
+		}
+	}
+	for _, p := range fam {
+		sa, sb := obiseq.NewBioSequence("a", []byte(p.a), ""), obiseq.NewBioSequence("b", []byte(p.b), "")
+		r.State(fmt.Sprintf("xl:%s", p.what))
+		for bound := 0; bound <= 4; bound++ {
+			h.xlPair(p, sa, sb, bound, false, bufs)
+			h.xlPair(p, sa, sb, bound, true, bufs)
+		}
+		r.Count("xl_near_pairs", 1)
+	}
+	// one very long sequence against 0, 1 or 2 of its own bases (subsequences: LCS = their
+	// length, shortest alignment = L), unbounded and with bounds around the number of differences
+	if L >= 1000 {
+		base := c09base(L)
+		sa := obiseq.NewBioSequence("a", []byte(base), "")
+		for _, b := range []string{"", base[L-1:], base[:1], base[:1] + base[L-1:]} {
+			p := c09xl{L, base, b, len(b), L, fmt.Sprintf("L=%d against %q", L, b)}
+			sb := obiseq.NewBioSequence("b", []byte(b), "")
+			r.State(fmt.Sprintf("xl:%s", p.what))
+			d := L - len(b)
+			for _, bound := range []int{-1, d - 1, d, d + 1} {
+				h.xlPair(p, sa, sb, bound, false, bufs)
+				h.xlPair(p, sa, sb, bound, true, bufs)
+			}
+			r.Count("xl_unequal_pairs", 1)
+		}
 	}
 }
